@@ -51,6 +51,9 @@ type Cmp struct {
 }
 
 func (c *Cmp) near(a, b float64) bool {
+	if math.IsNaN(a) || math.IsNaN(b) || math.IsInf(a, 0) || math.IsInf(b, 0) {
+		return false // NaN compares false with everything, an infinity is not "equal within rounding" to anything
+	}
 	return math.Abs(a-b) <= ref.Rel*math.Max(ref.Scale, math.Max(math.Abs(a), math.Abs(b)))
 }
 
@@ -83,6 +86,10 @@ func (c *Cmp) Val(s ref.S, i int) (float64, bool) {
 		return 0, false
 	}
 	if s.X[i] {
+		if s.Z != nil && s.Z[i] {
+			// the documented pointwise formula is x/0 at this very position: its IEEE value decides the rule
+			return s.V[i], true
+		}
 		c.Exempt = true
 		return 0, true
 	}
